@@ -88,16 +88,30 @@ func inList(l []string, s string) bool {
 }
 
 func C14BadNotation() {
-	n1, i1 := vrt.SlotText("bad", "N1"), vrt.SlotText("bad", "I1")
-
-	vrt.SlotText("bad", "N2")
-	vrt.SlotText("bad", "M1")
-	// interface-level and method-level candidates are explored separately
-	vrt.Assume(n1 == "" || i1 == "")
-	h1, h2 := vrt.SlotText("bad", "H1"), vrt.SlotText("bad", "H2")
-	// the hooks of the methods with additional arguments are explored on their own
-	vrt.Assume(vrt.Implies(h1 != "" || h2 != "", n1 == "" && i1 == ""))
-	rejected := badHarness("bad", 5)
+	// The slots are explored in four families (each slot outside the family stays empty); the
+	// restriction is stated right after each slot is chosen, so that no infeasible product is walked.
+	focus := vrt.Choose("focus", 4) // 0: method notation, 1: interface notation, 2: hooks H1/H2, 3: hook H3
+	slot := func(name string, free bool) string {
+		t := vrt.SlotText("bad", name)
+		if !free {
+			vrt.Assume(t == "")
+		}
+		return t
+	}
+	i1 := slot("I1", focus == 1)
+	n1 := slot("N1", focus == 0)
+	slot("N2", focus <= 1)
+	m1 := slot("M1", focus <= 1)
+	h1, h2, h3 := slot("H1", focus == 2), slot("H2", focus == 2), slot("H3", focus == 3)
+	rejected := badHarness("bad", 6)
+	// a hook that returns an error cannot fit a method without error result (Other has none)
+	if n1 == "" && i1 == "" && h1 == "" && h2 == "" && h3 == "" && (m1 == ":preprocess HookGood" || m1 == ":postprocess HookGood") {
+		vrt.AssertMsg("error-returning-hook-on-a-method-without-error-rejected", rejected, m1)
+	}
+	if n1 == "" && i1 == "" && m1 == "" && h1 == "" && h2 == "" && h3 != "" && vrt.SlotText("bad", "N2") == "" {
+		// a pointer argument is passed on as it is: it fits a pointer parameter, not a value parameter
+		vrt.AssertMsg("hook-with-additional-arguments-accepted-iff-it-fits", rejected == (h3 != ":preprocess HookOptPtr"), h3)
+	}
 	if n1 == "" && i1 == "" && vrt.SlotText("bad", "M1") == "" && vrt.SlotText("bad", "N2") == "" {
 		// a hook fits when every operand the method passes is assignable to its parameter
 		fits := map[string]bool{":preprocess HookExact": true, ":preprocess HookWide": true, ":postprocess HookWide": true,
@@ -113,7 +127,7 @@ func C14BadNotation() {
 	if i1 == ":style" || i1 == ":style foo" || i1 == ":match x" {
 		vrt.AssertMsg("malformed-interface-notation-is-rejected", rejected, i1)
 	}
-	if i1 == "" && vrt.SlotText("bad", "M1") == "" && h1 == "" && h2 == "" {
+	if i1 == "" && m1 == "" && h1 == "" && h2 == "" && h3 == "" {
 		if inList(mustReject, n1) && !(n1 == ":reverse" && vrt.SlotText("bad", "N2") == ":style arg") {
 			vrt.AssertMsg("documented-unusable-shape-is-rejected", rejected, n1)
 		}
